@@ -268,9 +268,27 @@ func (d *Data) RenumberLabels(v dvid.VersionID, origLabel, newLabel uint64, info
 		MergeOp: op,
 	}
 
+	// Like a merge, the renumber is a read-modify-write of two label indices: hold their index
+	// shard locks (ascending order) from the first read to the last write.
+	shards := []uint64{origLabel % numIndexShards, newLabel % numIndexShards}
+	if shards[0] > shards[1] {
+		shards[0], shards[1] = shards[1], shards[0]
+	}
+	if shards[0] == shards[1] {
+		shards = shards[:1]
+	}
+	for _, shard := range shards {
+		indexMu[shard].Lock()
+	}
+	defer func() {
+		for _, shard := range shards {
+			indexMu[shard].Unlock()
+		}
+	}()
+
 	// Get all the affected blocks in the merge.
 	var targetIdx, mergeIdx *labels.Index
-	if targetIdx, err = GetLabelIndex(d, v, newLabel, false); err != nil {
+	if targetIdx, err = getCachedLabelIndex(d, v, newLabel); err != nil {
 		err = fmt.Errorf("error accessing index of renumber target label %d: %v", newLabel, err)
 		return
 	}
@@ -279,7 +297,7 @@ func (d *Data) RenumberLabels(v dvid.VersionID, origLabel, newLabel uint64, info
 		return
 	}
 	delta.TargetVoxels = 0
-	if mergeIdx, err = GetLabelIndex(d, v, origLabel, false); err != nil {
+	if mergeIdx, err = getCachedLabelIndex(d, v, origLabel); err != nil {
 		err = fmt.Errorf("can't get block indices of renumbered label %d: %v", origLabel, err)
 		return
 	}
@@ -318,11 +336,12 @@ func (d *Data) RenumberLabels(v dvid.VersionID, origLabel, newLabel uint64, info
 		targetIdx.LastModUser = info.User
 		targetIdx.LastModTime = info.Time
 		targetIdx.LastModApp = info.App
-		if err = PutLabelIndex(d, v, newLabel, targetIdx); err != nil {
+		targetIdx.Label = newLabel
+		if err = putCachedLabelIndex(d, v, targetIdx); err != nil {
 			return
 		}
 	}
-	DeleteLabelIndex(d, v, origLabel)
+	deleteCachedLabelIndex(d, v, origLabel)
 
 	dvid.Infof("renumber label %d: %d supervoxels, %d blocks\n", newLabel, len(mergeIdx.GetSupervoxels()), len(mergeIdx.Blocks))
 
